@@ -136,6 +136,7 @@ __CPROVER_requires(DIAG_PRE && g_srm_n == 0 && sys->sort_by_rank == 0)
 __CPROVER_requires(w_sc_n == LLEN3(sys) && g_sc_l0 == L0(sys) && (L0(sys) == NULL || (g_sc_l1 == L1(sys) && (L1(sys) == NULL || g_sc_l2 == L2(sys)))))
 __CPROVER_assigns(sys->sort_by_rank, DIAG_FRAME, g_srm_n,
 	__CPROVER_object_whole(g_srm_loom), __CPROVER_object_whole(g_srm_ret), __CPROVER_object_whole(g_srm_en))
+__CPROVER_assigns(w_srm_ret0, w_srm_ret1, w_srm_ret2, w_srm_en0, w_srm_en1, w_srm_en2)   /* replay witnesses written by the loom_set_rank_min stub */
 __CPROVER_assigns(sys->looms != NULL: sys->looms->rank_enabled, sys->looms->rank_min)
 __CPROVER_assigns(sys->looms != NULL && sys->looms->next != NULL: sys->looms->next->rank_enabled, sys->looms->next->rank_min)
 __CPROVER_assigns(sys->looms != NULL && sys->looms->next != NULL && sys->looms->next->next != NULL:
